@@ -112,7 +112,9 @@ Definition setstackreg (s : state) (a : nat) (st : list frame) (r : preg) := upd
 Definition settoken (s : state) (c : nat) (b : bool) := upda s c (fun x => x <| token := b |>).
 Definition setsres (s : state) (c : nat) (b : bool) := upda s c (fun x => x <| sres := b |>).
 
-Definition ev0 : evcell := {| fired := false; wakers := [] |}.
+(* events outside the configured range count as already fired (an await on them completes at once) *)
+Definition ev0 : evcell := {| fired := true; wakers := [] |}.
+Definition ev_new : evcell := {| fired := false; wakers := [] |}.
 Definition fc0 : fcell := {| res := FNone; fwaker := None |}.
 Definition getev (s : state) (e : nat) : evcell := default ev0 (s.(evs) !! e).
 Definition getf (s : state) (f : nat) : fcell := default fc0 (s.(futs) !! f).
@@ -440,7 +442,7 @@ Definition step_label (s : state) (a : nat) : option (lockclass * nat) :=
 (* configuration: caller scripts, number of pool runners, number of external events *)
 Definition mk_actor (st : list frame) : arec := {| stack := st; reg := RReady; token := false; sres := false |}.
 Definition init (scripts : list (list cop)) (npool nev : nat) : state :=
-  {| qs := Idle; jobs := []; insched := 0; evs := replicate nev ev0; futs := []; dws := []; dbl := [];
+  {| qs := Idle; jobs := []; insched := 0; evs := replicate nev ev_new; futs := []; dws := []; dbl := [];
      actors := ((fun sc => mk_actor [FTop sc]) <$> scripts) ++ replicate npool (mk_actor [FPIdle]);
      log := []; nextop := 0 |}.
 
